@@ -131,3 +131,24 @@ Fixpoint crun (s : cstate) (ls : list clabel) : option cstate :=
   match ls with [] => Some s | l :: r => match cstep s l with Some s' => crun s' r | None => None end end.
 Definition cinit : cstate := mkC 0 (fun _ => 0) (fun _ => None) (fun _ => None) (fun _ => CIdle) (fun _ => 0) (fun _ => None).
 Definition creach (s : cstate) : Prop := exists ls, crun cinit ls = Some s.
+
+(* ---------------------------------------------------------------- which requests may share a flight: the collapse key *)
+(* a ResolveLock command as reqCollapse sees it *)
+Record rcmd := mkCmd {
+  rc_region : nat; rc_start : nat; rc_commit : nat; rc_isasync : bool;
+  rc_txninfos : list (nat * nat);   (* batch resolve (GC worker) *)
+  rc_keys : list nat                (* resolve lock lite *)
+}.
+
+(* tryCollapseRequest (sync entry) and SendRequestAsync (async entry) use the SAME test: only a full-region ResolveLock --
+   no keys, no txn infos -- is collapsed; everything else goes straight to the wrapped client *)
+Definition collapsible (r : rcmd) : bool :=
+  match rc_keys r, rc_txninfos r with [], [] => true | _, _ => false end.
+
+(* resolveLockCollapseKey: region id, start version, IsAsync (the commit version is NOT part of it) *)
+Definition collapse_key (r : rcmd) : nat * nat * bool := (rc_region r, rc_start r, rc_isasync r).
+
+(* the key under which caller c's request enters the single-flight group: a collapsible request the encoding of its
+   collapse key, any other request a key of its own (it is not collapsed at all) *)
+Definition flight_key (kenc : nat * nat * bool -> nat) (r : rcmd) (c : nat) : nat :=
+  if collapsible r then 2 * kenc (collapse_key r) else 2 * c + 1.
